@@ -38,7 +38,8 @@ def run(rep, tier, seed, replay_file=None):
     binary = harness.build(L.BINARY)
     cells, behs, edge, abort, sim = f_cells.result(), f_behs.result(), f_edge.result(), f_abort.result(), f_sim.result()
     if quick:
-        behs, edge = L.sample(behs, 1000, seed), L.sample(edge, 800, seed)
+        # the matrix: every (construct, failure kind) class is represented (5 x 15 classes, 14 cells each)
+        behs, edge = L.stratified_by(behs, L.fault_class, 14, seed), L.sample(edge, 800, seed)
         abort = L.stratified(abort, 50, seed) + L.sample(abort, 100, seed)
     else:
         # finite spaces enumerated completely: the option x kind x collector x construct matrix, every terminal edge of
@@ -87,7 +88,7 @@ def run(rep, tier, seed, replay_file=None):
     if hists:
         rep.sample(dict(kind="recorded history (validated by TLC against WgErrTrace)", events=max(hists[:50], key=len)[:14]))
     rep.cov["rule"] = (
-        "cells = all 11 failure kinds x 2^4 options of ErrContract, each replayed on the four real recover wrappers + "
+        "cells = all 16 kinds (10 returned / panicking failure kinds, 5 panics whose value is or wraps a never-reported sentinel, ok) x 2^4 options of ErrContract, each replayed on the four real recover wrappers + "
         "CanContinueOnError (reported? continue? against Contract).  behaviours = driver schedules of WgErrCtl (complete option x "
         "kind x collector matrix on pp/pfe/worker/map/gen with one worker; one schedule per terminal edge of the abstract graph "
         "for n<=4, k<=3, <=2 failing items (thorough: plus a sample of the n<=5 / five-kind / five-construct graph); abort scenarios n=5..8, k=2..3; random n<=8,k<=4; quick tier: seeded "
